@@ -61,7 +61,7 @@ PBCS = C7.PBCS
 SYSDEFS = C7.SYSDEFS
 ATOM_STYLES = C7.ATOM_STYLES
 if THOROUGH:
-    FORMATS = ['%.13f', '%.10e', '%.6f', '%.16e']
+    FORMATS = ['%.13f', '%.10e', '%.6f']
     FORMS = ['str', 'path', 'stream', 'file']
 else:
     FORMATS = ['%.13f', '%.10e']
@@ -909,13 +909,9 @@ def gen():
                         yield 'dump', {'sys': si, 'pbc': pi, 'units': ui, 'fmt': fi, 'var': vi}
         for pi in FAULT_PBCS:
             for st in [x for x in FAULT_STYLES if x in styles]:
+                for ai in (range(nperm) if n <= 4 else list(range(24)) + [nperm - 1]):
+                    yield 'data-perm', {'sys': si, 'pbc': pi, 'style': st, 'units': 'metal', 'aperm': ai}
                 for un in FAULT_UNITS:
-                    if n <= 4:
-                        for ai in range(nperm):
-                            yield 'data-perm', {'sys': si, 'pbc': pi, 'style': st, 'units': un, 'aperm': ai}
-                    else:
-                        for ai in list(range(24)) + [nperm - 1]:
-                            yield 'data-perm', {'sys': si, 'pbc': pi, 'style': st, 'units': un, 'aperm': ai}
                     for kind in ('comment', 'blank'):
                         yield 'data-text', {'sys': si, 'pbc': pi, 'style': st, 'units': un, 'kind': kind, 'forms': FORMS}
                     yield 'data-missing', {'sys': si, 'pbc': pi, 'style': st, 'units': un, 'forms': FORMS}
